@@ -600,7 +600,9 @@ func (env *SpecEnv) evalBinary(x *ast.BinaryExpr) TV {
 			if tt == nil {
 				tt = b.T
 			}
+			env.ex.specEq = true
 			t = env.ex.valuesEqual(env.st, a.V, b.V, tt)
+			env.ex.specEq = false
 		}
 		if x.Op == token.NEQ {
 			t = Not(t)
@@ -742,6 +744,44 @@ func (env *SpecEnv) evalCall(c *ast.CallExpr) TV {
 				tool("spec: as(x, T)")
 			}
 			return TV{ex.unbox(env.st, iv, t), t}
+		case "ufStr", "ufInt", "ufBool":
+			lit, ok := c.Args[0].(*ast.BasicLit)
+			if !ok {
+				tool("spec: %s needs a literal name", id.Name)
+			}
+			nm, _ := strconv.Unquote(lit.Value)
+			var fl []*Term
+			for _, a := range c.Args[1:] {
+				v := env.eval(a)
+				if isNilTV(v) {
+					fl = append(fl, Zero)
+					continue
+				}
+				fl = append(fl, flatten(v.V)...)
+			}
+			switch id.Name {
+			case "ufStr":
+				return TV{Scalar{UF("spec:"+nm, SStr, fl...)}, types.Typ[types.String]}
+			case "ufInt":
+				return TV{Scalar{UF("spec:"+nm, SInt, fl...)}, intT}
+			}
+			return TV{Scalar{UF("spec:"+nm, SBool, fl...)}, boolT}
+		case "inv":
+			v := env.eval(c.Args[0])
+			t := v.T
+			if pt, ok := under(t).(*types.Pointer); ok {
+				t = pt.Elem()
+			}
+			ts := ex.Specs.Types[typeName(t)]
+			if ts == nil {
+				tool("spec: inv(%s): no type block for %s", exprString(c.Args[0]), typeName(t))
+			}
+			inner := env.with("self", v)
+			var cs []*Term
+			for _, cl := range ts.Invariant {
+				cs = append(cs, inner.evalBoolT(cl.Expr))
+			}
+			return TV{Scalar{And(cs...)}, boolT}
 		case "holds":
 			p := env.eval(c.Args[0])
 			return TV{Scalar{BoolLit(env.st.Locks[lockKey(p)] == 2)}, boolT}
